@@ -49,7 +49,13 @@ import (
 var keyS = map[int]string{
 	1: "acct:alice/7Qx1zzKey",
 	2: "k2-вход-9fKpW3uY",
-	3: strings.Repeat("Lk3q", 24) + "-endOfKey3",
+	3: strings.Repeat("Lk3q", 120) + "-endOfKey3", // very long
+	// keys that resemble the formatter's OWN output formats and other structured identifiers
+	4: base58.Encode([]byte{0x51, 0x0c, 0xe2, 0x9a, 0x77, 0x03, 0xfe, 0x10, 0xb4, 0x4d, 0x8e, 0x21, 0x6f, 0xa5, 0x39, 0xc8}), // base58 of 128 bits: an EDV document id
+	5: base64.URLEncoding.EncodeToString([]byte("\x9b\x01key5-thirty-two-bytes-of-keyzz\xfe\xa0")),                           // base64url of 32 bytes: a formatted tag
+	6: "3f2b8c1e-9a4d-4e7b-b1c2-5d6e7f8091a2",                                                                                // UUID
+	7: "did:key:z6MkpTHR8VNsBxYAAWHut2Geadd9jSwuBV8xRoAnwWsdvktH#z6MkpTHR8VNsBxYAAWHut2Geadd9jSwuBV8xRoAnwWsdvktH",
+	8: "q|r&&s:t=u?v&w|x\"y\\z<Key8>",
 }
 
 var valS = map[int][]byte{
@@ -58,9 +64,15 @@ var valS = map[int][]byte{
 	3: []byte("v3-" + strings.Repeat("payload-Gh5", 20)),
 }
 
-var nameS = map[int]string{1: "nm1-Qz8Lw2ee", 2: "тег2-Hy6TqName", 3: "n3&&x-Pp0aaNm", 9: "bad:name-Jj7q"}
+var nameS = map[int]string{1: "nm1-Qz8Lw2ee", 2: "тег2-Hy6TqName", 3: "n3&&x-Pp0aaNm", 9: "bad:name-Jj7q",
+	4: base64.URLEncoding.EncodeToString([]byte("\x03name4-looks-like-a-mac-output\xff")), // like a formatted tag name
+	5: base58.Encode([]byte("name5-16-bytes!!")),                                          // like a document id
+}
 
-var tvalS = map[int]string{1: "tv1-Mm4Rr7xVal", 2: "tv2 sp/+=é-Value", 3: "tv3-" + strings.Repeat("w", 40), 9: "bad:val-Kk2pp"}
+var tvalS = map[int]string{1: "tv1-Mm4Rr7xVal", 2: "tv2 sp/+=é-Value", 3: "tv3-" + strings.Repeat("w", 40), 9: "bad:val-Kk2pp",
+	4: base64.URLEncoding.EncodeToString([]byte("tval4-32-bytes-like-a-mac-value!")),
+	5: "9c1d7e42-0b3a-4f6e-8d2c-a1b2c3d4e5f6",
+}
 
 const (
 	storeName  = "s"
@@ -147,7 +159,7 @@ type BOp struct {
 
 // Op is one step of a case.
 type Op struct {
-	Kind string `json:"op"` // put get tags bulk query querysort delete batch flush reopen setcfg getcfg
+	Kind string `json:"op"` // put get tags bulk query queryopts delete batch flush reopen setcfg getcfg
 	K    int    `json:"k,omitempty"`
 	V    int    `json:"v,omitempty"`
 	T    []Tag  `json:"t,omitempty"`
@@ -155,7 +167,13 @@ type Op struct {
 	Q    []Tag  `json:"q,omitempty"`
 	B    []BOp  `json:"b,omitempty"`
 	N    []int  `json:"n,omitempty"` // setcfg: tag names
-	S    int    `json:"s,omitempty"` // querysort: tag name of the sort option
+	O    []QOpt `json:"o,omitempty"` // queryopts: the query options, in order
+}
+
+// QOpt is one query option: "s" sort by tag name N (0 = empty name; order alternates), "p" page size N, "i" initial page N.
+type QOpt struct {
+	K string `json:"k"`
+	N int    `json:"n"`
 }
 
 // Res is one entry of a query result.
@@ -186,6 +204,7 @@ type Case struct {
 
 type conf struct {
 	name     string
+	batch    bool // WithEDVBatchCrypto: MACs and encryption computed by a (here: local) "remote KMS" in one call
 	kh       *keyset.Handle
 	crypto   cryptoapi.Crypto
 	enc      jose.Encrypter
@@ -256,10 +275,52 @@ func newConf(name string, kt kms.KeyType, alg jose.EncAlg) (*conf, error) {
 	return cf, nil
 }
 
+// perf stands for the remote KMS of edv.BatchCrypto: it answers with the MAC of the document id, the formatted tags
+// and the encrypted document, all computed by the real local formatter and the real MAC (what
+// the package's own test double does by hand).
+type perf struct{ cf *conf }
+
+func (p *perf) BatchCrypto(req *edv.BatchCryptoPayload, macKH, _ interface{}) (*edv.BatchCryptoPayload, error) {
+	payload, err := base64.RawURLEncoding.DecodeString(req.DocPayload)
+	if err != nil {
+		return nil, err
+	}
+
+	var value []byte
+	if len(payload) > 0 {
+		value = payload
+	}
+
+	inner := edv.NewEncryptedFormatter(p.cf.enc, p.cf.dec, edv.NewMACCrypto(macKH, p.cf.crypto), edv.WithDeterministicDocumentIDs())
+
+	_, doc, ftags, err := inner.Format(req.Prefix+req.DocID, value, req.DocTags...)
+	if err != nil {
+		return nil, err
+	}
+
+	id := ""
+
+	if req.DocID != "" {
+		m, err := p.cf.crypto.ComputeMAC([]byte(req.Prefix+req.DocID), macKH)
+		if err != nil {
+			return nil, err
+		}
+
+		id = base64.RawURLEncoding.EncodeToString(m)
+	}
+
+	return &edv.BatchCryptoPayload{Prefix: req.Prefix, DocID: id, DocTags: ftags,
+		DocPayload: base64.RawURLEncoding.EncodeToString(doc)}, nil
+}
+
 func (cf *conf) formatter(det bool) formattedstore.Formatter {
 	var opts []edv.EncryptedFormatterOption
 	if det {
 		opts = append(opts, edv.WithDeterministicDocumentIDs())
+	}
+
+	if cf.batch {
+		opts = append(opts, edv.WithEDVBatchCrypto(edv.NewBatchCrypto(cf.kh, nil, &perf{cf})))
 	}
 
 	return edv.NewEncryptedFormatter(cf.enc, cf.dec, edv.NewMACCrypto(cf.kh, cf.crypto), opts...)
@@ -306,19 +367,34 @@ type atom struct {
 	n    int
 	raw  []byte
 	term string
+	encs map[string]string // the atom in the encodings the property names (computed once)
 }
 
 var atoms []atom
 
 func init() {
-	for _, n := range []int{1, 2, 3} {
-		atoms = append(atoms, atom{"key", n, []byte(keyS[n]), fmt.Sprintf("(aK %d)", n)})
-		atoms = append(atoms, atom{"value", n, valS[n], fmt.Sprintf("(aV %d)", n)})
+	for _, n := range []int{1, 2, 3, 4, 5, 6, 7, 8} {
+		atoms = append(atoms, atom{"key", n, []byte(keyS[n]), fmt.Sprintf("(aK %d)", n), nil})
 	}
 
-	for _, n := range []int{1, 2, 3, 9} {
-		atoms = append(atoms, atom{"tagname", n, []byte(nameS[n]), fmt.Sprintf("(aN %d)", n)})
-		atoms = append(atoms, atom{"tagvalue", n, []byte(tvalS[n]), fmt.Sprintf("(aT %d)", n)})
+	for _, n := range []int{1, 2, 3} {
+		atoms = append(atoms, atom{"value", n, valS[n], fmt.Sprintf("(aV %d)", n), nil})
+	}
+
+	for _, n := range []int{1, 2, 3, 4, 5, 9} {
+		atoms = append(atoms, atom{"tagname", n, []byte(nameS[n]), fmt.Sprintf("(aN %d)", n), nil})
+		atoms = append(atoms, atom{"tagvalue", n, []byte(tvalS[n]), fmt.Sprintf("(aT %d)", n), nil})
+	}
+}
+
+func init() {
+	for i := range atoms {
+		raw := atoms[i].raw
+		atoms[i].encs = map[string]string{
+			"base64std": base64.StdEncoding.EncodeToString(raw), "base64url": base64.URLEncoding.EncodeToString(raw),
+			"base64rawstd": base64.RawStdEncoding.EncodeToString(raw), "base64rawurl": base64.RawURLEncoding.EncodeToString(raw),
+			"base58": base58.Encode(raw), "hex": hex.EncodeToString(raw),
+		}
 	}
 }
 
@@ -441,7 +517,7 @@ func newWorld(c Case) (*world, error) {
 	w.top = formattedstore.NewProvider(w.rec, w.cf.formatter(c.Det))
 
 	for _, o := range c.Ops {
-		if (o.Kind == "query" || o.Kind == "querysort") && len(o.Q) > 1 {
+		if (o.Kind == "query" || o.Kind == "queryopts") && len(o.Q) > 1 {
 			ss, ts := exprParts(o.Q)
 			for i := range ss {
 				w.cf.addMacs(w.tab, ss[i], ts[i])
@@ -539,8 +615,26 @@ func (w *world) exec(o Op) (out Out) {
 		}
 
 		return r
-	case "query":
-		it, err := s.Query(exprStr(o.Q))
+	case "query", "queryopts":
+		var qopts []spi.QueryOption
+
+		for i, q := range o.O {
+			switch q.K {
+			case "s":
+				ord := spi.SortAscending
+				if i%2 == 1 {
+					ord = spi.SortDescending
+				}
+
+				qopts = append(qopts, spi.WithSortOrder(&spi.SortOptions{Order: ord, TagName: nameS[q.N]}))
+			case "p":
+				qopts = append(qopts, spi.WithPageSize(q.N))
+			case "i":
+				qopts = append(qopts, spi.WithInitialPageNum(q.N))
+			}
+		}
+
+		it, err := s.Query(exprStr(o.Q), qopts...)
 		if err != nil {
 			return errOut(err)
 		}
@@ -583,16 +677,6 @@ func (w *world) exec(o Op) (out Out) {
 		sort.SliceStable(r.R, func(i, j int) bool { return r.R[i].K < r.R[j].K })
 
 		return r
-	case "querysort":
-		it, err := s.Query(exprStr(o.Q), spi.WithPageSize(2),
-			spi.WithSortOrder(&spi.SortOptions{Order: spi.SortDescending, TagName: nameS[o.S]}))
-		if err != nil {
-			return errOut(err)
-		}
-
-		_ = it.Close()
-
-		return Out{Kind: "done"}
 	case "delete":
 		if err := s.Delete(keyStr(o.K)); err != nil {
 			return errOut(err)
@@ -746,11 +830,7 @@ func (w *world) scan(callOp, what string, arg []byte) {
 			}
 		}
 
-		for name, e := range map[string]string{
-			"base64std": base64.StdEncoding.EncodeToString(a.raw), "base64url": base64.URLEncoding.EncodeToString(a.raw),
-			"base64rawstd": base64.RawStdEncoding.EncodeToString(a.raw), "base64rawurl": base64.RawURLEncoding.EncodeToString(a.raw),
-			"base58": base58.Encode(a.raw), "hex": hex.EncodeToString(a.raw),
-		} {
+		for name, e := range a.encs {
 			hay := arg
 			if name == "hex" {
 				hay = lower
@@ -767,6 +847,17 @@ func (w *world) scan(callOp, what string, arg []byte) {
 
 // ---------- abstraction of arguments to terms ----------
 
+// b58 decodes base58 (the library indexes a 256-entry table by rune: non-ASCII input must not reach it)
+func b58(s string) []byte {
+	for _, c := range s {
+		if c > 127 {
+			return nil
+		}
+	}
+
+	return base58.Decode(s)
+}
+
 func (w *world) str(s string) string {
 	if s == "" {
 		return "(L 0)"
@@ -780,7 +871,7 @@ func (w *world) str(s string) string {
 		return t
 	}
 
-	if d := base58.Decode(s); len(d) == 16 && base58.Encode(d) == s {
+	if d := b58(s); len(d) == 16 && base58.Encode(d) == s {
 		t := fmt.Sprintf("(rI %d)", w.nRnd)
 		w.nRnd++
 		w.tab[s] = t
@@ -1136,8 +1227,13 @@ func coqOp(o Op) string {
 		return "XS (GetBulk " + coqNs(o.Ks) + ")"
 	case "query":
 		return "XS (Query " + coqTags(o.Q) + ")"
-	case "querysort":
-		return fmt.Sprintf("XQuerySort %s %d", coqTags(o.Q), o.S)
+	case "queryopts":
+		qs := make([]string, len(o.O))
+		for i, q := range o.O {
+			qs[i] = fmt.Sprintf("%s %d", map[string]string{"s": "QSort", "p": "QPage", "i": "QInit"}[q.K], q.N)
+		}
+
+		return "XQueryOpts " + coqTags(o.Q) + " [" + strings.Join(qs, "; ") + "]"
 	case "delete":
 		return fmt.Sprintf("XS (Delete %d)", o.K)
 	case "batch":
@@ -1367,10 +1463,124 @@ func randOp(r *hx.Rng) Op {
 	case x < 95:
 		return Op{Kind: "setcfg", N: cfgSets[r.Intn(len(cfgSets))]}
 	case x < 98:
-		return Op{Kind: "querysort", Q: queries[r.Intn(len(queries))], S: 1 + r.Intn(3)}
+		return Op{Kind: "queryopts", Q: queries[r.Intn(len(queries))], O: randQOpts(r)}
 	}
 
 	return Op{Kind: "getcfg"}
+}
+
+// randQOpts: 0..3 sort options (same / different / empty tag names) with page size and initial page options in any order
+func randQOpts(r *hx.Rng) []QOpt {
+	n := r.Intn(5)
+	o := make([]QOpt, 0, n)
+
+	for i := 0; i < n; i++ {
+		switch x := r.Intn(10); {
+		case x < 6:
+			nm := 1 + r.Intn(3)
+			if r.Intn(12) == 0 {
+				nm = 0
+			}
+
+			o = append(o, QOpt{"s", nm})
+		case x < 9:
+			o = append(o, QOpt{"p", 1 + r.Intn(30)})
+		default:
+			o = append(o, QOpt{"i", r.Intn(2)})
+		}
+	}
+
+	return o
+}
+
+// remap replaces the working alphabet 1..3 of a generated history by the case's choice of keys, tag names and tag
+// values (0 = empty and 9 = contains ':' stay).
+func remap(ops []Op, km, nm, vm [4]int) []Op {
+	k := func(x int) int {
+		if x >= 1 && x <= 3 {
+			return km[x]
+		}
+
+		return x
+	}
+	tg := func(t []Tag) []Tag {
+		if t == nil {
+			return nil
+		}
+
+		r := make([]Tag, len(t))
+		for i, x := range t {
+			r[i] = x
+			if x[0] >= 1 && x[0] <= 3 {
+				r[i][0] = nm[x[0]]
+			}
+
+			if x[1] >= 1 && x[1] <= 3 {
+				r[i][1] = vm[x[1]]
+			}
+		}
+
+		return r
+	}
+	out := make([]Op, len(ops))
+
+	for i, o := range ops {
+		n := o
+		n.K, n.T, n.Q = k(o.K), tg(o.T), tg(o.Q)
+
+		if o.Ks != nil {
+			n.Ks = make([]int, len(o.Ks))
+			for j, x := range o.Ks {
+				n.Ks[j] = k(x)
+			}
+		}
+
+		if o.B != nil {
+			n.B = make([]BOp, len(o.B))
+			for j, b := range o.B {
+				n.B[j] = BOp{K: k(b.K), V: b.V, T: tg(b.T)}
+			}
+		}
+
+		if o.N != nil {
+			n.N = make([]int, len(o.N))
+			for j, x := range o.N {
+				n.N[j] = x
+				if x >= 1 && x <= 3 {
+					n.N[j] = nm[x]
+				}
+			}
+		}
+
+		if o.O != nil {
+			n.O = make([]QOpt, len(o.O))
+			for j, q := range o.O {
+				n.O[j] = q
+				if q.K == "s" && q.N >= 1 && q.N <= 3 {
+					n.O[j].N = nm[q.N]
+				}
+			}
+		}
+
+		out[i] = n
+	}
+
+	return out
+}
+
+// pick3 chooses three different members of a class (index 0 unused).
+func pick3(r *hx.Rng, from []int) [4]int {
+	p := append([]int{}, from...)
+	for i := len(p) - 1; i > 0; i-- {
+		j := r.Intn(i + 1)
+		p[i], p[j] = p[j], p[i]
+	}
+
+	return [4]int{0, p[0], p[1], p[2]}
+}
+
+func randMaps(r *hx.Rng) (km, nm, vm [4]int) {
+	return pick3(r, []int{1, 2, 3, 4, 5, 6, 7, 8}), pick3(r, []int{1, 2, 3, 4, 5}), pick3(r, []int{1, 2, 3, 4, 5})
 }
 
 func probe(r *hx.Rng) []Op {
@@ -1395,6 +1605,10 @@ func probe(r *hx.Rng) []Op {
 
 func randomCase(r *hx.Rng, n int) Case {
 	c := Case{Det: r.Bool(), Fmt: r.Intn(len(confs))}
+	if confs[c.Fmt].batch {
+		c.Det = true // the batch path takes the document id from the KMS answer: deterministic ids only
+	}
+
 	ops := make([]Op, 0, n+12)
 
 	if r.Intn(3) > 0 {
@@ -1405,7 +1619,8 @@ func randomCase(r *hx.Rng, n int) Case {
 		ops = append(ops, randOp(r))
 	}
 
-	c.Ops = append(ops, probe(r)...)
+	km, nm, vm := randMaps(r)
+	c.Ops = remap(append(ops, probe(r)...), km, nm, vm)
 
 	return c
 }
@@ -1442,7 +1657,9 @@ func exhaustive(depth int, tr *hx.Trace, rng *hx.Rng) {
 		{Kind: "delete", K: 1},
 		{Kind: "query", Q: []Tag{{1, 0}}},
 		{Kind: "query", Q: []Tag{{1, 1}}},
-		{Kind: "querysort", Q: []Tag{{1, 1}}, S: 2},
+		{Kind: "queryopts", Q: []Tag{{1, 1}}, O: []QOpt{{"p", 2}, {"s", 2}}},
+		{Kind: "queryopts", Q: []Tag{{1, 0}}, O: []QOpt{{"s", 1}, {"p", 5}, {"s", 2}}},
+		{Kind: "put", K: 3, V: 2, T: []Tag{{3, 3}}},
 		{Kind: "batch", B: []BOp{{K: 1, V: 3, T: []Tag{{2, 2}}}, {K: 1, T: []Tag{{1, 1}}}, {K: 1, V: 1}}},
 		{Kind: "batch", B: []BOp{{K: 2}, {K: 1, V: 1, T: []Tag{{1, 2}}}}},
 		{Kind: "reopen"},
@@ -1456,8 +1673,15 @@ func exhaustive(depth int, tr *hx.Trace, rng *hx.Rng) {
 
 	rec = func(prefix []Op) {
 		if len(prefix) > 0 {
+			km, nm, vm := randMaps(rng.Fork(uint64(7_000_000 + n)))
+
 			for _, det := range []bool{true, false} {
-				runCase("exhaustive", Case{Det: det, Fmt: n % len(confs), Ops: append(append([]Op{}, prefix...), tail...)}, tr, true)
+				if !det && confs[n%len(confs)].batch {
+					continue
+				}
+
+				runCase("exhaustive", Case{Det: det, Fmt: n % len(confs),
+					Ops: remap(append(append([]Op{}, prefix...), tail...), km, nm, vm)}, tr, true)
 			}
 
 			n++
@@ -1488,6 +1712,7 @@ func main() {
 	}{
 		{"P256KW+A256GCM", kms.NISTP256ECDHKWType, jose.A256GCM},
 		{"X25519KW+XC20P", kms.X25519ECDHKWType, jose.XC20P},
+		{"P256KW+A256GCM+BatchCrypto", kms.NISTP256ECDHKWType, jose.A256GCM},
 	} {
 		cf, err := newConf(x.name, x.kt, x.alg)
 		if err != nil {
@@ -1495,6 +1720,7 @@ func main() {
 			os.Exit(2)
 		}
 
+		cf.batch = strings.HasSuffix(x.name, "BatchCrypto")
 		confs = append(confs, cf)
 	}
 
